@@ -13,7 +13,7 @@ LEAN_MODULES = ["MpirProofs.Props.C05_div", "MpirProofs.Props.C05_mpz", "MpirPro
 THEOREMS = ["Mpir.AliasMem.ofInts_ok",
             "Mpir.AliasMem.tdiv_qr_ptr_spec", "Mpir.AliasMem.tdiv_qr_alias", "Mpir.AliasMem.tdiv_q_ptr_spec", "Mpir.AliasMem.tdiv_r_ptr_spec",
             "Mpir.AliasMem.cfdiv_qr_ptr_spec", "Mpir.AliasMem.cfdiv_qr_alias", "Mpir.AliasMem.cfdiv_q_ptr_spec", "Mpir.AliasMem.cfdiv_r_ptr_spec",
-            "Mpir.AliasMem.mod_ptr_spec", "Mpir.AliasMem.divexact_ptr_spec", "Mpir.AliasMem.div3_alias", "Mpir.AliasMem.div_q_ui_ptr_spec", "Mpir.AliasMem.div_r_ui_ptr_spec", "Mpir.AliasMem.div_qr_ui_ptr_spec",
+            "Mpir.AliasMem.mod_ptr_spec", "Mpir.AliasMem.divexact_ptr_spec", "Mpir.AliasMem.div3_alias", "Mpir.AliasMem.div_q_ui_ptr_spec", "Mpir.AliasMem.divexact_ui_ptr_spec", "Mpir.AliasMem.div_r_ui_ptr_spec", "Mpir.AliasMem.div_qr_ui_ptr_spec",
             "Mpir.AliasMem.mul_2exp_ptr_spec", "Mpir.AliasMem.tdiv_q_2exp_ptr_spec", "Mpir.AliasMem.cfdiv_q_2exp_ptr_spec", "Mpir.AliasMem.tdiv_r_2exp_ptr_spec",
             "Mpir.AliasMem.mpz_and_ptr_spec", "Mpir.AliasMem.mpz_xor_ptr_spec", "Mpir.AliasMem.mpz_ior_ptr_spec", "Mpir.AliasMem.logic_ptr_spec", "Mpir.AliasMem.mpz_com_ptr_spec",
             "Mpir.AliasMem.sqrtrem_ptr_spec", "Mpir.AliasMem.mpz_gcd_ptr_spec", "Mpir.AliasMem.mpz_neg_ptr_spec", "Mpir.AliasMem.mpz_abs_ptr_spec", "Mpir.AliasMem.mpz_set_ptr_spec",
@@ -21,7 +21,7 @@ THEOREMS = ["Mpir.AliasMem.ofInts_ok",
             "Mpir.Mpf.mpf_add_ui_alias", "Mpir.Mpf.mpf_sub_ui_alias", "Mpir.Mpf.mpf_ui_sub_alias"]
 PINS = [("mpz/tdiv_qr.c", None), ("mpz/tdiv_q.c", None), ("mpz/tdiv_r.c", None),
         ("mpz/fdiv_qr.c", None), ("mpz/cdiv_qr.c", None), ("mpz/fdiv_q.c", None), ("mpz/cdiv_q.c", None),
-        ("mpz/fdiv_r.c", None), ("mpz/cdiv_r.c", None), ("mpz/mod.c", None), ("mpz/divexact.c", None), ("mpz/tdiv_q_ui.c", None), ("mpz/fdiv_q_ui.c", None), ("mpz/cdiv_q_ui.c", None),
+        ("mpz/fdiv_r.c", None), ("mpz/cdiv_r.c", None), ("mpz/mod.c", None), ("mpz/divexact.c", None), ("mpz/dive_ui.c", None), ("mpz/tdiv_q_ui.c", None), ("mpz/fdiv_q_ui.c", None), ("mpz/cdiv_q_ui.c", None),
         ("mpz/tdiv_r_ui.c", None), ("mpz/fdiv_r_ui.c", None), ("mpz/cdiv_r_ui.c", None),
         ("mpz/tdiv_qr_ui.c", None), ("mpz/fdiv_qr_ui.c", None), ("mpz/cdiv_qr_ui.c", None),
         ("mpz/mul_2exp.c", None), ("mpz/tdiv_q_2exp.c", None), ("mpz/cfdiv_q_2exp.c", None), ("mpz/tdiv_r_2exp.c", None),
@@ -215,3 +215,10 @@ def gen_ops(rng, tier, ctx=None):
                         v[a] = rng.choice([1, -1]) * ((c * (_mag(rng, rng.choice([1, 2, 3])) | 1)) << (sh + rng.choice([0, 3, 64])))
                         if a != b: v[b] = rng.choice([1, -1]) * ((c * (_mag(rng, rng.choice([1, 2, 4])) | 1)) << (sh + rng.choice([0, 5, 128])))
                     yield "alias_gcd %x %x %x 0 %s" % (g, a, b, " ".join(hx(x) for x in v))
+    for w in range(4):
+        for u in range(4):
+            for _ in range(reps * 3):
+                v = _values(rng, big)
+                d = rng.choice([1, 2, 3, 7, 1 << 63, (1 << 64) - 1, rng.getrandbits(64) | 1, rng.getrandbits(rng.randrange(1, 65)) | 1])
+                v[u] = rng.choice([1, -1, 0]) * d * _mag(rng, rng.choice([0, 1, 1, 2, 3, big]))
+                yield "alias_divexact_ui %x %x %x %s" % (w, u, d, " ".join(hx(x) for x in v))
